@@ -38,7 +38,17 @@ ELNext == \/ Pick(0, ELEvents) \/ Pick(1, Containers)
           \/ Pick(3, ELParams)
           \/ Finish(4, EllipseAxis(scn[1], scn[3].xs, scn[4][1], scn[4][2], scn[4][3], scn[4][4]))
 
-Next == CASE Gate = "start_end" -> SENext [] Gate = "high_low" -> HLNext [] OTHER -> ELNext
+(* ---- ellipse in log10 space: coordinates by exponent (UNDEF = a zero or negative value); scn as for ellipse *)
+LGCodes == {UNDEF, 0, 1, 2, 3}
+LGPts == {<<x, y, 1>> : x \in LGCodes, y \in LGCodes}
+LGEvents == UNION {[1..n -> LGPts] : n \in 0..MaxN}
+LGParams == {<<2, 1, 2, 1>>, <<1, 1, 1, 1>>, <<2, 2, 2, 2>>, <<1, 2, 1, 2>>, <<3, 0, 1, 1>>}
+LGNext == \/ Pick(0, LGEvents) \/ Pick(1, {"array-int", "array-float", "sample"})
+          \/ stage = 2 /\ \E f \in ELForms : (Named(f) => scn[2] = "sample") /\ scn' = Append(scn, f) /\ stage' = 3 /\ UNCHANGED out
+          \/ Pick(3, LGParams)
+          \/ Finish(4, EllipseLog(scn[1], scn[3].xs, scn[4][1], scn[4][2], scn[4][3], scn[4][4]))
+
+Next == CASE Gate = "start_end" -> SENext [] Gate = "high_low" -> HLNext [] Gate = "ellipse_log" -> LGNext [] OTHER -> ELNext
 Spec == Init /\ [][Next]_vars
 
 Done == stage = 100
@@ -51,4 +61,6 @@ StartEndCount == (Done /\ Gate = "start_end" /\ out.k = "ok") =>
    IN kept = (ns + 1)..(scn[1] - ne)
 HighLowMonotone == (Done /\ Gate = "high_low" /\ scn[4] = 5 /\ scn[5] = 1) =>
    \A i \in 1..Len(out.mask) : out.mask[i] => \A j \in 1..Len(scn[3].xs) : scn[1][i][scn[3].xs[j]] \in 2..4
+UndefNeverInside == (Done /\ Gate = "ellipse_log" /\ out.k = "ok") =>
+   \A i \in 1..Len(out.mask) : out.mask[i] => \A j \in 1..2 : scn[1][i][scn[3].xs[j]] # UNDEF
 =============================================================================
